@@ -44,6 +44,7 @@ class Contract:
         self.locals = {}
         self.reads_only = False
         self.unfold = None
+        self.traces = False
         for s in node.body:
             if isinstance(s, ast.Expr) and isinstance(s.value, ast.Constant):
                 continue
@@ -93,6 +94,8 @@ class Contract:
                 self.sorts[c.args[0].value] = c.args[1].value
             elif k == 'result_sort':
                 self.results = c.args[0].value
+            elif k == 'traces':
+                self.traces = True
             elif k == 'unfold':
                 self.unfold = c.args[0].value
             elif k == 'ghost':
